@@ -54,3 +54,57 @@ Definition valid_mapping (w : world) (m : mapping) : bool :=
 Definition view_restrict (w : world) (v : view) : view :=
   {| v_ctrl := v_ctrl v; v_hosts := v_hosts v; v_svcs := v_svcs v; v_data := v_data v;
      v_nets := filter (fun n => n ∈ dom (w_nets w)) (v_nets v); v_blocks := v_blocks v |}.
+
+(* views and actions read through a re-labelling (for the equivariance theorem, Proofs/Equivariance.v) *)
+Definition rekey_keys {A} (m : mapping) (t : gmap ip A) : gmap ip A :=
+  list_to_map (map (fun kv => (mip m (fst kv), snd kv)) (map_to_list t)).
+Definition map_view (m : mapping) (v : view) : view :=
+  {| v_ctrl := map_ipset m (v_ctrl v); v_hosts := map_ipset m (v_hosts v);
+     v_svcs := rekey_keys m (v_svcs v); v_data := rekey_keys m (v_data v);
+     v_nets := set_map (mnet m) (v_nets v); v_blocks := rekey_ipmap m (v_blocks v) |}.
+Definition map_action (m : mapping) (a : gaction) : gaction :=
+  match a with
+  | AScan src target => AScan (mip m src) (mnet m target)
+  | AFindServices src tgt => AFindServices (mip m src) (mip m tgt)
+  | AFindData src tgt => AFindData (mip m src) (mip m tgt)
+  | AExploit src tgt s => AExploit (mip m src) (mip m tgt) s
+  | AExfil src tgt d => AExfil (mip m src) (mip m tgt) d
+  | ABlock src tgt blocked => ABlock (mip m src) (mip m tgt) (mip m blocked)
+  end.
+
+(* all addresses a world / view / action mentions *)
+Definition ipmap_ips (t : gmap ip (gset ip)) : gset ip := dom t ∪ ⋃ (map snd (map_to_list t)).
+Definition world_all_ips (w : world) : gset ip :=
+  world_ips w ∪ ipmap_ips (w_fw w) ∪ ipmap_ips (w_blocks w) ∪ ipmap_ips (w_fw0 w).
+Definition view_ips (v : view) : gset ip :=
+  v_ctrl v ∪ v_hosts v ∪ dom (v_svcs v) ∪ dom (v_data v) ∪ ipmap_ips (v_blocks v).
+Definition action_ips (a : gaction) : gset ip :=
+  match a with
+  | AScan src _ => {[src]}
+  | AFindServices src tgt | AFindData src tgt | AExploit src tgt _ | AExfil src tgt _ => {[src; tgt]}
+  | ABlock src tgt blocked => {[src; tgt; blocked]}
+  end.
+Definition action_nets (a : gaction) : gset net := match a with AScan _ t => {[t]} | _ => ∅ end.
+(* a scan target keeps exactly its members: no host of the world falls into or out of the re-labelled network *)
+Definition scan_faithful (m : mapping) (w : world) (a : gaction) : bool :=
+  match a with
+  | AScan _ t => forallb (fun i => Bool.eqb (in_net (mip m i) (mnet m t)) (in_net i t)) (elements (dom (w_ip2host w)))
+  | _ => true
+  end.
+
+(* playing an action sequence from one view *)
+Fixpoint play (w : world) (v : view) (acts : list gaction) : world * view :=
+  match acts with
+  | [] => (w, v)
+  | a :: tl => play (fst (step w v a)) (snd (step w v a)) tl
+  end.
+
+
+(* a decidable form of the hypotheses of the equivariance theorem (Proofs/Equivariance.v), evaluated inside Coq on
+   the re-labellings the implementation makes *)
+Definition play_universe (w : world) (v : view) (acts : list gaction) : gset ip :=
+  world_all_ips w ∪ view_ips v ∪ ⋃ (map action_ips acts).
+Definition equiv_ready (m : mapping) (w : world) (v : view) (acts : list gaction) : bool :=
+  inj_on (mip m) (play_universe w v acts) && inj_on (mnet m) (dom (w_nets w)) &&
+  forallb (scan_faithful m w) acts.
+
